@@ -240,3 +240,39 @@ Proof.
   - intros n c H. do 6 (destruct n as [|n]; [cbn in H; inversion H; subst; cbn; lia|]). destruct n; discriminate.
   - vm_compute. repeat split.
 Qed.
+
+(* ---- dependencies first / created only if needed under the extended semantics (Proofs/FactoryXDeps.v).  A component now
+   "requests" another one through an injection point OR by looking it up from its Init method (depX); the statement is
+   about INJECTED dependencies (point indices below 100): a component an Init method looks up is created in the middle
+   of the caller's Init and cannot have completed before the caller began. *)
+From IocVerif Require Import Proofs.FactoryXNoPanic Proofs.FactoryXDeps Proofs.FactoryXInv.
+
+Theorem c05_deps_first_extended : forall s x o st,
+  small_points s -> run_xt repaired s x = (o, Ok st) ->
+  procs_pointless_b (normalise repaired s) = true -> procs_quiet_b (normalise repaired s) x = true ->
+  stages_ok_b (normalise repaired s) = true ->
+  forall c k v, k < 100 -> alookup c (L1 (reg st)) <> None -> In v (field_of st c k) -> owner v <> c ->
+    (alookup (owner v) (L1 (reg st)) <> None /\ older (owner v) c (log st))
+    \/ depX repaired (normalise repaired s) x (owner v) c.
+Proof.
+  intros s x o st Hsm H Hp Hq Hs.
+  exact (proj1 (run_core_xt_DNX repaired (normalise repaired s) x o st eq_refl eq_refl eq_refl eq_refl Hsm Hp Hq Hs H)).
+Qed.
+
+Theorem c05_created_only_if_needed_extended : forall s x o st n,
+  small_points s -> run_xt repaired s x = (o, Ok st) ->
+  procs_pointless_b (normalise repaired s) = true -> procs_quiet_b (normalise repaired s) x = true ->
+  stages_ok_b (normalise repaired s) = true ->
+  cached (reg st) n = true ->
+  is_lazy (s_pop s) n = false
+  \/ exists a, is_lazy (s_pop s) a = false /\ alookup a (L1 (reg st)) <> None
+               /\ depX repaired (normalise repaired s) x a n.
+Proof.
+  intros s x o st n Hsm H Hp Hq Hs Hc.
+  destruct (proj2 (run_core_xt_DNX repaired (normalise repaired s) x o st eq_refl eq_refl eq_refl eq_refl Hsm Hp Hq Hs H) n Hc)
+    as [Hr|[a [Ha [Hca Hd]]]]; [left; exact Hr|].
+  right. exists a. split; [exact Ha|]. split; [|exact Hd].
+  destruct (run_core_xt_top repaired (normalise repaired s) x o st eq_refl H) as [HI Hcr]. unfold cached in Hca.
+  destruct (alookup a (L1 (reg st))); [discriminate|]. cbn [isSome orb] in Hca.
+  pose proof (i_early_creating st HI a Hca) as Hin. rewrite Hcr in Hin. contradiction.
+Qed.
